@@ -196,6 +196,40 @@ def precedence_grid(full=True):
                     yield dict(helpers=[HELPER_CONFIGS[0], HELPER_CONFIGS[3]], ops=ops), "grid:precedence"
 
 
+def pragma_grid(full=True):
+    """(pragma :warn-on-core-shadow v) absent/False at module level x absent/False/True in an outer and in an inner scope; a
+    core name is defined or required before and after every pragma and after every scope end"""
+    binders = [
+        ["def", "when"],
+        ["req", [dict(h=0, shape="names", names=[["m1", "when"]])]],
+        ["req", [dict(h=0, shape="star")]],
+        ["def", "is-not"],
+    ]
+    n = 0
+    for pm in (None, False):
+        for po in (None, False, True):
+            for pi in (None, False, True):
+                for ii, inner in enumerate(M.REAL):
+                    for oi, outer in enumerate(("defn", "class")):
+                        n += 1
+                        if not full and (n + ii) % 2 != oi:
+                            continue
+                        b = binders[n % len(binders)]
+                        ops = [b]
+                        if pm is not None:
+                            ops += [["pragma", pm], b]
+                        ops.append(["open", outer])
+                        ops.append(b)
+                        if po is not None:
+                            ops += [["pragma", po], b]
+                        ops.append(["open", inner])
+                        ops.append(b)
+                        if pi is not None:
+                            ops += [["pragma", pi], b]
+                        ops += [["close"], b, ["close"], b, ["call", ["when", "is-not"]]]
+                        yield dict(helpers=[HELPER_CONFIGS[0], HELPER_CONFIGS[3]], ops=json.loads(json.dumps(ops))), "grid:pragma"
+
+
 def history_strategy(max_ops):
     from hypothesis import strategies as st
 
@@ -291,27 +325,40 @@ def _one(ctx, case, origin):
 
 
 def shard(ctx):
-    # (1), (2) enumerated grids, spread over the shards
-    i = 0
-    for gen in (require_grid, precedence_grid):
-        for case, origin in gen(full=not ctx.quick):
+    """The three enumerated grids (spread over the shards) and the random histories are interleaved, so that a run cut short
+    by its time budget has still seen every generator."""
+    full = not ctx.quick
+
+    def grid_iter(gen):
+        i = 0
+        for case, origin in gen(full=full):
             i += 1
-            if i % ctx.n != ctx.k:
-                continue
-            if ctx.out_of_time():
-                return
-            _one(ctx, case, origin)
-    # (3) random histories: drawn inside Hypothesis, executed afterwards (hy.macros.require and hy.eval walk the whole
-    # call stack with inspect.stack(), which is very slow under the engine's deep stack)
-    total = ctx.per_shard(1200, 40000)
-    rnd = 0
-    while total > 0 and not ctx.out_of_time():
-        rnd += 1
-        m = min(200, total)
-        total -= m
-        cases = []
-        ctx.hyp(history_strategy(24 if ctx.quick else 36), cases.append, m, "histories-%d" % rnd)
-        for case in cases:
-            if ctx.out_of_time():
-                return
-            _one(ctx, case, "random")
+            if i % ctx.n == ctx.k:
+                yield case, origin
+
+    def random_iter():
+        # histories are drawn inside Hypothesis and executed afterwards: hy.macros.require and hy.eval walk the whole call
+        # stack with inspect.stack(), which is very slow under the engine's deep stack
+        total = ctx.per_shard(2400, 40000)
+        rnd = 0
+        while total > 0:
+            rnd += 1
+            m = min(60, total)
+            total -= m
+            cases = []
+            ctx.hyp(history_strategy(24 if ctx.quick else 36), cases.append, m, "histories-%d" % rnd)
+            for case in cases:
+                yield case, "random"
+
+    sources = [[grid_iter(require_grid), 1], [grid_iter(pragma_grid), 1], [grid_iter(precedence_grid), 1], [random_iter(), 4]]
+    while sources:
+        for src in list(sources):
+            for _ in range(src[1]):
+                if ctx.out_of_time():
+                    return
+                try:
+                    case, origin = next(src[0])
+                except StopIteration:
+                    sources.remove(src)
+                    break
+                _one(ctx, case, origin)
